@@ -371,6 +371,30 @@ def impl_produce_frame(f):
     return bytes(parser.enip_encode(e))
 
 
+def impl_reproduce(f1, f2):
+    """A message dict used as a template: produced for f1, then - the SAME dicts - given f2's field values item by item (whatever the first
+    produce left in them, e.g. an item's rendered .input, stays) and produced again.  -> bytes, which must be the bytes of f2"""
+    from cpppo.server.enip import parser
+    e = frame_dd(f1)
+    e.input = bytearray(parser.CIP.produce(e))
+    parser.enip_encode(e)
+    e2 = frame_dd(f2)
+    for k in ('command', 'session_handle', 'status', 'options'):
+        e[k] = e2[k]
+    e.sender_context.input = e2.sender_context.input
+    its1 = e.CIP[next(iter(dict.keys(e.CIP)))].CPF.item
+    its2 = e2.CIP[next(iter(dict.keys(e2.CIP)))].CPF.item
+    for k in dict.keys(e2.CIP[next(iter(dict.keys(e2.CIP)))]):
+        if k != 'CPF':
+            e.CIP[next(iter(dict.keys(e.CIP)))][k] = e2.CIP[next(iter(dict.keys(e2.CIP)))][k]
+    for i1, i2 in zip(its1, its2):
+        for k in list(dict.keys(i2)):
+            if k != 'input':
+                i1[k] = i2[k]
+    e.input = bytearray(parser.CIP.produce(e))
+    return bytes(parser.enip_encode(e))
+
+
 def impl_produce_cip(m):
     from cpppo.server.enip import logix
     return bytes(logix.Logix.produce(cip_dd(m)))
